@@ -13,10 +13,10 @@ import re
 
 from ..interp import Interp, Hooks, Budget
 from ..state import State, Obj, IntV, PtrV, NULL, MAXLEN
-from ..terms import Lin, ZERO
+from ..terms import Lin, base_atoms, ZERO
 from ..effects import func_roles
 from . import own
-from .common import short, fn_loc
+from .common import short, fn_loc, slot_subst, subst, robust
 
 LEVEL = 'proof'
 EXPLANATION = ('abstract interpretation of the comparison cores with sizes free over 64 bits and the prefix comparator as an opaque '
@@ -421,6 +421,11 @@ def derived(run, m, F, E):
     return n
 
 
+def own_fmt(env):
+    from . import own
+    return own.fmt_env(env)
+
+
 def ci_step(run, m, F, E):
     """R06.6 compare_ci(3-arg): one iteration."""
     f = [m.func(x) for x in F.lib if m.func(x).dem == '_ST_PRIVATE::compare_ci(char const*, char const*, unsigned long)']
@@ -428,8 +433,8 @@ def ci_step(run, m, F, E):
     f = f[0]
 
     class H(Hooks):
-        unroll = 0
-        widen_on_entry = True
+        unroll = 1                  # the first iteration is interpreted exactly: it supplies the entry values of the cursors and the
+        widen_on_entry = False      # per-iteration deltas from which the affine relations between them are proposed (then verified)
 
         def call(self2, I, st, inst, name, args):
             if name and m.dem(name).startswith('_ST_PRIVATE::cl_fast_lower('):
@@ -445,41 +450,113 @@ def ci_step(run, m, F, E):
     lo.lazy = ro.lazy = True
     st.objs['LEFT'], st.objs['RIGHT'] = lo, ro
     cnt = I.fresh_int(st, 64, 'fsize', hi=MAXLEN)
+    fsize = cnt.lin
     outs = I.run(I.start(f, [PtrV('LEFT'), PtrV('RIGHT'), cnt], st))
-    problems = []
+    problems, und = [], []
     kinds = {}
+
+    def unit_pos(v):
+        """(object, offset) of the unit a folded value was loaded from."""
+        if not isinstance(v, IntV):
+            return None
+        atoms = set()
+        base_atoms(v.lin, atoms)
+        ld = [a for a in atoms if isinstance(a, tuple) and a[0] == 'load' and a[1] in ('LEFT', 'RIGHT')]
+        if len(atoms) != 1:
+            return None
+        if len(ld) == 1:
+            return ld[0][1], ld[0][2]
+        mt = re.match(r'^(LEFT|RIGHT)\.(\d+)$', list(atoms)[0]) if isinstance(list(atoms)[0], str) else None
+        if mt:
+            return mt.group(1), Lin.const(int(mt.group(2)))
+        return None
+
+    def differs(s2, d, what):
+        """d == 0 required: discharged / violated with a witness / undecided."""
+        if d is None:
+            und.append(what + ': not expressible over the loop-carried values')
+            return
+        if s2.is_eq0(d) is True:
+            return
+        env = s2.find_model([d], lambda v: v[0] != 0) if robust([d]) else None
+        if env is not None:
+            problems.append('%s; witness %s' % (what, own_fmt(env)))
+        else:
+            und.append(what + ' (not decided)')
+    pos_terms = None
+
+    def nfold(s2, wi):
+        return len([e for e in s2.events[:wi + 1] if e[0] == 'fold'])
+    exits = []
     for o in outs:
         s2 = o.st
         kinds[o.kind] = kinds.get(o.kind, 0) + 1
-        folds_ = [e for e in s2.events if e[0] == 'fold']
-        b = s2.flags.get('wbegin:' + f.name) or {}
-        e2 = s2.flags.get('wend:' + f.name) or {}
+        wi = max([k for k, e in enumerate(s2.events) if e[0] == 'widen' and e[1] == f.name] or [-1])
+        folds_ = [e for e in s2.events[wi + 1:] if e[0] == 'fold']
+        hdrs = [k for k in s2.flags if isinstance(k, str) and k.startswith('hbegin:' + f.name + ':')]
+        b = s2.flags.get(hdrs[0]) if len(hdrs) == 1 else {}
+        e2 = s2.flags.get('hend:' + hdrs[0][7:]) if len(hdrs) == 1 else {}
+        en = s2.flags.get('hentry:' + hdrs[0][7:]) if len(hdrs) == 1 else {}
         if o.kind == 'backedge':
             if len(folds_) != 2:
-                problems.append('an iteration folds %d units, expected one of each side' % len(folds_))
-            if s2.is_eq0(Lin.atom('fold0') - Lin.atom('fold1')) is not True:
+                und.append('an iteration folds %d units, expected one of each side' % len(folds_))
+                continue
+            fa, fb = [Lin.atom('fold%d' % k) for k in range(nfold(s2, wi), nfold(s2, wi) + 2)]
+            if s2.is_eq0(fa - fb) is not True:
                 problems.append('the loop continues although the folded units may differ')
-            adv = {}
-            for nm, bv in b.items():
-                ev = e2.get(nm)
-                if isinstance(bv, PtrV) and isinstance(ev, PtrV):
-                    adv[bv.obj] = ev.off - bv.off
-                elif isinstance(bv, IntV) and isinstance(ev, IntV):
-                    adv['count'] = ev.lin - bv.lin
-            if not (adv.get('LEFT') == Lin.const(1) and adv.get('RIGHT') == Lin.const(1) and adv.get('count') == Lin.const(-1)):
-                problems.append('iteration advances (left,right,count) by %s, expected (+1,+1,-1)' % adv)
-        elif o.kind == 'ret' and folds_:
+            ps = [unit_pos(e[2]) for e in folds_]
+            if None in ps or sorted(p[0] for p in ps) != ['LEFT', 'RIGHT']:
+                und.append('the folded values are not one unit read from each operand')
+                continue
+            pa = dict(ps)
+            a, b_ = pa['LEFT'], pa['RIGHT']
+            pos_terms = (a, b_)
+            differs(s2, a - b_, 'the units compared in one iteration are at different offsets (%r of left, %r of right)' % (a, b_))
+            nx = slot_subst(b, e2 or {})
+            differs(s2, (lambda t: None if t is None else t - a - 1)(subst(a, nx)), 'the next iteration does not examine the unit after %r of left' % (a,))
+            differs(s2, (lambda t: None if t is None else t - b_ - 1)(subst(b_, nx)), 'the next iteration does not examine the unit after %r of right' % (b_,))
+            e0 = slot_subst(b, en or {})
+            differs(s2, subst(a, e0), 'the first iteration does not examine unit 0 of left')
+            differs(s2, subst(b_, e0), 'the first iteration does not examine unit 0 of right')
+        elif o.kind == 'ret' and not (isinstance(o.val, IntV) and not o.val.lin.t):
+            # a return of a non-constant: the difference of the two units folded last
             v = o.val
-            if s2.is_eq0(Lin.atom('fold0') - Lin.atom('fold1')) is True:
+            allf = [e for e in s2.events if e[0] == 'fold']
+            if len(allf) < 2 or (wi >= 0 and len(folds_) != 2):
+                und.append('a returning iteration folds %d units' % len(folds_))
+                continue
+            fa, fb = Lin.atom('fold%d' % (len(allf) - 2)), Lin.atom('fold%d' % (len(allf) - 1))
+            ps = [unit_pos(e[2]) for e in allf[-2:]]
+            if None in ps or [p[0] for p in ps] != ['LEFT', 'RIGHT']:
+                und.append('the value returned on a difference is not built from one unit of each operand (left first)')
+                continue
+            sv = I.as_s(s2, v)
+            if s2.is_eq0(fa - fb) is True:
                 problems.append('returns inside the loop although the folded units are equal')
-            elif not (isinstance(v, IntV) and I.as_s(s2, v) == Lin.atom('fold0') - Lin.atom('fold1')):
-                problems.append('returns %r, expected folded(left) - folded(right)' % (v,))
+            elif sv is None:
+                und.append('return value on a difference not tracked')
+            elif sv != fa - fb:
+                # any value with the sign of folded(left) - folded(right) orders the same way
+                lt = s2.find_model([sv, fa - fb], lambda w: (w[0] > 0) != (w[1] > 0) or (w[0] < 0) != (w[1] < 0)) if robust([sv]) else None
+                if lt is not None:
+                    problems.append('returns %r where folded(left) - folded(right) has another sign; witness %s' % (v, own_fmt(lt)))
+                else:
+                    und.append('returns %r on a difference: sign agreement with folded(left) - folded(right) not decided' % (v,))
         elif o.kind == 'ret':
-            if not (isinstance(o.val, IntV) and not o.val.lin.t and o.val.lin.c == 0):
+            if o.val.lin.c != 0:
                 problems.append('returns %r after the last unit, expected 0' % (o.val,))
+            if wi >= 0:
+                exits.append(s2)
+            else:
+                npairs = len([e for e in s2.events if e[0] == 'fold']) // 2
+                differs(s2, fsize - npairs, 'returns 0 (equal) after %d of the count units' % npairs)
     if not kinds.get('backedge') or kinds.get('ret', 0) < 2:
-        problems.append('unexpected path structure %s' % kinds)
-    run.ob('R06.6', short(f.dem), not problems, problems[0] if problems else 'one folded unit of each side per iteration; difference iff they differ; 0 at the end', loc=fn_loc(f))
+        und.append('unexpected path structure %s' % kinds)
+    if pos_terms is not None:
+        for s2 in exits:
+            differs(s2, pos_terms[0] - fsize, 'returns 0 (equal) with the cursor at %r, before all of the count units were examined' % (pos_terms[0],))
+    run.ob('R06.6', short(f.dem), False if problems else (None if und else True), problems[0] if problems else (und[0] if und else
+           'unit k of each side is folded in iteration k (k = 0, 1, ...); difference iff they differ; 0 after the count-th unit'), loc=fn_loc(f))
     return 1
 
 
